@@ -959,6 +959,7 @@ def _run_case(case, skip, prog, tid, meter):
         if i in skip:
             continue
         setup, formula = item(case, i)
+        prog[4] = time.process_time()
         prog[2] = time.time()
         prog[1] = i
         prog[3] = wall_limit(formula)
@@ -1060,7 +1061,7 @@ def _worker_main(conn, prog):
 
 class _Worker(object):
     def __init__(self, ctx):
-        self.prog = ctx.RawArray('d', 4)
+        self.prog = ctx.RawArray('d', 5)
         self.conn, child = ctx.Pipe()
         self.proc = ctx.Process(target=_worker_main, args=(child, self.prog), daemon=True)
         self.proc.start()
@@ -1095,6 +1096,17 @@ def _requeue(cases, tid, extra, results, pending):
         results[tid]['abandoned'] = False
     else:
         pending.insert(0, tid)
+
+
+def _cpu_seconds(pid):
+    """user + system time the process has consumed so far (None if it cannot be read)"""
+    try:
+        with open('/proc/%d/stat' % pid) as f:
+            st = f.read()
+        fields = st[st.rindex(')') + 2:].split()
+        return (int(fields[11]) + int(fields[12])) / float(os.sysconf('SC_CLK_TCK'))
+    except (OSError, ValueError, IndexError):
+        return None
 
 
 def run_farm(cases, deadline_s):
@@ -1152,6 +1164,15 @@ def run_farm(cases, deadline_s):
             for w in list(busy):
                 t0 = w.prog[2]
                 if t0 and int(w.prog[0]) == w.tid and now - t0 > w.prog[3]:
+                    # the wall-clock budget is over.  On a loaded machine that alone says little, so the verdict is taken
+                    # on the processor time the call itself has used: over budget -> it does not return in bounded time;
+                    # (almost) none -> it is blocked, not working (a deadlock does not return either); otherwise it is
+                    # still computing on a starved processor and is given up to 10 budgets of wall-clock
+                    used = _cpu_seconds(w.proc.pid)
+                    used = None if used is None else used - w.prog[4]
+                    elapsed = now - t0
+                    if used is not None and used <= w.prog[3] and used >= 0.02 * elapsed and elapsed <= 10 * w.prog[3]:
+                        continue
                     i = int(w.prog[1])
                     limit = w.prog[3]
                     w.kill()
@@ -1555,7 +1576,7 @@ def impl(case):
         if not any(_key(c) == key for c in batch):
             batch = [case]
         t0 = time.time()
-        res = run_farm(batch, 3000 if _tier[0] == 'thorough' else 600)
+        res = run_farm(batch, 6000 if _tier[0] == 'thorough' else 1500)
         for c, r in zip(batch, res):
             _results[_key(c)] = r
         if len(batch) > 1:
